@@ -76,6 +76,10 @@ CHECKS = {
             'Static proof by polynomial identity: the weight list has n entries, entry 0 and entries 1..n-1 follow one formula f(x) that is affine in x with f(0) = 1 and f(n-1) = s (checked as identities num - s*den == 0 etc.), the vector returned is that list divided by the sum of the same list, every division by a quantity vanishing at n = 1 sits inside range(1, n) (so n >= 2 there) and a single agent gets weight one; the function reads no module-level mutable state; the vector reaches np.random.choice(p=..., replace=False) unchanged over the population 1..n. Holds for every n >= 1 and s > 0, not a grid.',
             'Floating-point rounding of the sum is not decided. Trusted: ast, numpy contracts (A4).',
             'DESIGN.md section 5 C17'),
+    'C18': ('interprocedural side-effect summaries with a provenance domain (fresh vs reachable-from-self/parameter access paths) over the resolved call graph; CFG dominance of resets over accumulations followed through call sites and constructor fields; taint of the option containers; presence/None-guard facts by a guard-propagating syntax walk',
+            'Part: histories cannot be enumerated statically; decided instead is the effect discipline that makes every history behave. (1) The mutation summary of each of the four Solver getters - every attribute store, item store, in-place method and augmented assignment in the 25 functions they reach, with objects created inside the call excluded and parameters re-rooted at each call site - is empty, and no getter reaches a solve / set-up / variable-creating call: getters are functions of the state left by the last solve, so any order and number of calls returns the same text. (2) Every in-place accumulation that solve() performs on an object that outlives it is dominated, through call sites and constructor arguments up to Solver.solve, by a re-assignment of that attribute to a fresh value; solve() constructs a new solver object on every path before run(), the LP problem and every decision variable are created unconditionally, nothing is created once and kept; no mutation event has an option container on its access path: the second solve builds the same model from the same configuration. (3) Getters do not fail: LP-only attributes are presence-guarded where get_debug reads them and a possibly-None varValue is tested before an ordering comparison (found D11, D12).',
+            'NOT decided: that CBC returns the same optimum values for the same model (A6, determinism of the solver binary); wall-clock fields differ between calls by design and are outside the property. Trusted: ast; A3.',
+            'DESIGN.md section 5 C18'),
 }
 
 NOT_YET = 'checker under construction in this round (see DESIGN.md section 5 for the planned static rules)'
